@@ -78,6 +78,7 @@ type c07req struct {
 func c07prop(ev *evid.Rec) func(rt *rapid.T) {
 	return func(rt *rapid.T) {
 		altRoot := rapid.IntRange(0, 3).Draw(rt, "altroot") == 0
+		altEdited := rapid.Bool().Draw(rt, "altAccountEditedThenRestart")
 		nreq := rapid.IntRange(1, 3).Draw(rt, "nreq")
 		var done []c07req
 		reached := false
@@ -109,6 +110,18 @@ func c07prop(ev *evid.Rec) func(rt *rapid.T) {
 			must(os.WriteFile(filepath.Join(w.Cfg, "Files-evil", "secret-evil.txt"), []byte("MARKER-EVIL-SECRET-c2d1"), 0o644))
 			must(os.WriteFile(filepath.Join(w.Cfg, "Users.bak", "old.yaml"), []byte("Login: old\nName: MARKER-USERSBAK-5e5e\n"), 0o644))
 			if altRoot {
+				if err := w.Restart(); err != nil {
+					rt.Fatalf("harness: restart: %v", err)
+				}
+			}
+			if altRoot && altEdited {
+				// an administrator edits the account through the protocol (the server rewrites its file) and the server is
+				// restarted: the account is still confined to the root the operator gave it
+				adm := loginAs(rt, w, "10.7.9.9:1", "admin", "adminpw", "admin")
+				aa := allAccess
+				if r := adm.Request(hlref.TranSetUser, fld(hlref.FUserLogin, hlref.Obfuscate([]byte("alt"))), sfld(hlref.FUserName, "Alt edited"), fld(hlref.FUserAccess, aa[:]), fld(hlref.FUserPassword, []byte{0})); !okReply(r) {
+					rt.Fatalf("harness: set-user refused: %s", replySummary(r))
+				}
 				if err := w.Restart(); err != nil {
 					rt.Fatalf("harness: restart: %v", err)
 				}
